@@ -39,3 +39,33 @@ CONFIG = Cfg()
 def reset(**kw):
     STATE.update({"k": None, "db": None, "rewriter": "default", "filter": None, "sample_rate": None, "limit": None})
     STATE.update(kw)
+
+
+class Frozen(Cfg):
+    """A Config that fixes its settings when it is constructed (`-c mcfg:fresh()`): every CLI invocation builds its own, so
+    a CLI that carried a resolved config over from an earlier invocation in the same process would use stale settings."""
+
+    def __init__(self):
+        self._st = dict(STATE)
+
+    def trace_store(self):
+        return SQLiteStore.make_store(self._st["db"])
+
+    def max_typed_dict_size(self):
+        return DefaultConfig.max_typed_dict_size(self) if self._st["k"] is None else self._st["k"]
+
+    def type_rewriter(self):
+        return DefaultConfig.type_rewriter(self) if self._st["rewriter"] == "default" else self._st["rewriter"]
+
+    def code_filter(self):
+        return DefaultConfig.code_filter(self) if self._st["filter"] is None else self._st["filter"]
+
+    def sample_rate(self):
+        return self._st["sample_rate"]
+
+    def query_limit(self):
+        return DefaultConfig.query_limit(self) if self._st["limit"] is None else self._st["limit"]
+
+
+def fresh():
+    return Frozen()
